@@ -188,7 +188,7 @@ class _OpenShim:
         def trace(sql):
             if self._die is not None and len(self._log) == self._die:
                 os._exit(77)
-            self._log.append(" ".join(sql.split(None, 3)[0:3]))
+            self._log.append(" ".join(sql.split())[:120])
 
         conn.set_trace_callback(trace)
         return conn
@@ -240,9 +240,20 @@ def check_open_crash(ctx: Ctx, c: dict):
         os.waitpid(pid, 0)
         if not os.path.exists(os.path.join(td, "dry.json")):
             raise RuntimeError("dry run of the first open failed: " + open(os.path.join(td, "dry.err")).read())
-        kinds = json.load(open(os.path.join(td, "dry.json")))
+        full = json.load(open(os.path.join(td, "dry.json")))
+        kinds = [" ".join(x.split()[:3]) for x in full]
         n = len(kinds)
         ctx.count(f"open:statements={n}")
+        # K: the DDL statements of the real first open = the statement list of Model/Schema.lean (`reopen_completes_schema`,
+        # `open_after_creators_killed` are about that list); everything else it executes must be a PRAGMA (autocommit mode: the closing `commit()` has nothing to commit)
+        import re
+        ddl, other = [], []
+        for x in full:
+            mm = re.match(r"CREATE (TABLE|INDEX) IF NOT EXISTS (\w+)", x)
+            (ddl if mm else other).append(f"{mm.group(1)} {mm.group(2)}" if mm else x)
+        model = ctx.driver("drv_e2e").ask("schema stmts").split(";")
+        ctx.eq("DDL statements of IDManager.__init__ on a fresh file vs Model.Schema.stmts", c, ddl, model)
+        ctx.eq("non-DDL statements of IDManager.__init__", c, [x for x in other if not x.startswith("PRAGMA")], [])
         for k in (c.get("ks") or range(n + 1)):
             # `again`: how many further processes die at the same point of THEIR open before one gets through
             dbk = os.path.join(td, f"k{k}.db")
